@@ -299,8 +299,8 @@ class ServerSet(object):
     # Forget the known children (the path may be re-created with the same
     # names) and report them as removed through the notification worker, which
     # serializes this with pending notifications and guards the callbacks.
-    removed_nodes, self._nodes = self._nodes, set()
-    self._notification_queue.put((set(), removed_nodes))
+    self._nodes = set()
+    self._notification_queue.put(set())
 
   def _notification_worker(self):
     """'Atomically' raise notifications for join / leave.
@@ -312,7 +312,12 @@ class ServerSet(object):
       work = self._notification_queue.get()
       self._cb_blocker.ensure_safe()
       try:
-        new_nodes, removed_nodes = work
+        # Compare the listing with what has been announced rather than with
+        # the previous listing: a member whose read failed (it was deleted
+        # after being listed) is read again when its name shows up once more.
+        announced = set(self._members)
+        new_nodes = work - announced
+        removed_nodes = announced - work
         new_members = self._zk_nodes_to_members(new_nodes)
         self._members.update(((m.name, m) for m in new_members))
 
@@ -345,9 +350,6 @@ class ServerSet(object):
       children - The new set of child nodes.
     """
     children = set([c for c in children if self._member_filter(c)])
-    current_nodes = set(self._nodes)
     self._nodes = children
-    new_nodes = children - current_nodes
-    removed_nodes = current_nodes - children
     self._log.debug("Queueing notifications")
-    self._notification_queue.put((new_nodes, removed_nodes))
+    self._notification_queue.put(children)
